@@ -177,7 +177,7 @@ impl<T> RawTable<T> {
     pub fn insert(&mut self, hash: u64, eq: impl Fn(&T) -> bool, value: T) -> Result<usize, usize> {
         match self.find_or_free(hash, eq) {
             Ok(slot) => {
-                unsafe { self.insert_in_slot(hash, slot, value) };
+                *unsafe { self.get_at_slot_mut(slot) } = value;
                 Ok(slot)
             }
             Err(slot) => {
